@@ -349,7 +349,10 @@ def run(rep, tier):
             from . import c20 as _c20
             _c20.clause_stable_pointer(facts, rep, files=('sonic/dom/serialize.h', 'sonic/writebuffer.h'))
         from .. import narrowing
-        narrowing.check(get_facts(facts.config, norm=True), rep, 'E3.lossless-narrowing', ('itoa.h',), min_sites=1)
+        try:
+            narrowing.check(get_facts(facts.config, norm=True), rep, 'E3.lossless-narrowing', ('itoa.h',), min_sites=1)
+        except AnalysisBroken as ex:
+            rep.broken.append(str(ex))      # the remaining rules still report
     # which writer each integer kind goes to is also decided by the serializer exploration (leaves 2^64-1, 2^63, -2^63
     # included; shared with C06): the switch-shaped rule E9.kind-dispatch is corroborated by it
     try:
